@@ -197,6 +197,9 @@ def gen_accept(rng):
         if rng.random() < 0.12:
             total = rng.choice([1000, 1019, 1020, 1021, 1022])
             text = uri.pad_to(rng, text, total)
+        elif rng.random() < 0.06 and "?" not in text and "#" not in text:
+            # a URL that carries another URL in its query (a gateway, an editor link): one gemini request, whatever the text looks like
+            text += "?" + rng.choice(["titan://example.org/page.gmi", "next=gemini://other.example/x", "TITAN://h/p;size=3", "u=https://example.org/a"])
         return text.encode() + b"\r\n", "gen-gemini"
     # titan
     base, parts = uri.gen_uri(rng)
